@@ -67,6 +67,7 @@ type c01Ledger struct {
 	msgs  map[string]*ledgerMsg
 	lease map[string]string // lease id -> marker
 	held  []string
+	stale []string // leases of earlier generations (the processes that issued them are gone)
 }
 
 func c01Body(marker string, r *vlib.Rand) []byte {
@@ -202,6 +203,24 @@ func c01Traffic(p *l3.Proc, r *vlib.Rand, led *c01Ledger, gen int, crash c01Cras
 						}
 					}
 				default: // settle
+					if cr.Chance(0.08) {
+						// a worker repeating a batch settle whose leases the process no longer knows
+						// (ids from before a restart, or never issued): every id is a conflict
+						led.mu.Lock()
+						var stale []string
+						for n := cr.Range(2, 4); n > 0; n-- {
+							if len(led.stale) > 0 && cr.Bool() {
+								stale = append(stale, led.stale[cr.Intn(len(led.stale))])
+							} else {
+								stale = append(stale, fmt.Sprintf("lease_%016x", cr.U64()))
+							}
+						}
+						led.mu.Unlock()
+						op := vlib.Pick(cr, []string{"ack", "nack"})
+						p.Pull("/pull/p1/"+op, map[string]any{"lease_ids": stale}, "tok")
+						c01StaleBatches.Add(1)
+						continue
+					}
 					led.mu.Lock()
 					var leases []string
 					k := 1
@@ -307,7 +326,7 @@ func c01Traffic(p *l3.Proc, r *vlib.Rand, led *c01Ledger, gen int, crash c01Cras
 	wg.Wait()
 }
 
-var c01DupSettles atomic.Int64
+var c01DupSettles, c01StaleBatches atomic.Int64
 
 // c01Audit compares the post-restart listing with the ledger.
 func c01Audit(c *vlib.Ctx, label string, crash c01Crash, led *c01Ledger, msgs []l3.Message) {
@@ -678,6 +697,10 @@ func c01Trial(c *vlib.Ctx, root string, idx int, crashes []c01Crash) {
 		}
 		// everything still in flight is open; held leases of this generation are forgotten
 		led.mu.Lock()
+		led.stale = append(led.stale, led.held...)
+		if len(led.stale) > 400 {
+			led.stale = led.stale[len(led.stale)-400:]
+		}
 		led.held = nil
 		led.mu.Unlock()
 
@@ -723,6 +746,10 @@ func c01Trial(c *vlib.Ctx, root string, idx int, crashes []c01Crash) {
 		// graceful stop between generations (in-flight leases of the drain expire in the next one)
 		p.Stop()
 		led.mu.Lock()
+		led.stale = append(led.stale, led.held...)
+		if len(led.stale) > 400 {
+			led.stale = led.stale[len(led.stale)-400:]
+		}
 		led.held = nil
 		led.mu.Unlock()
 	}
@@ -839,6 +866,7 @@ func C01(c *vlib.Ctx) {
 	c01StartupCrashes(c, root)
 	c01DropOldest(c, root)
 	c.Set("duplicate_settle_races", c01DupSettles.Load())
+	c.Set("all_conflict_batches", c01StaleBatches.Load())
 	c01Strace(c, root)
 	if c.Counter("restart_audits") == 0 {
 		c.Inconclusive("C01: no restart audit completed")
